@@ -277,12 +277,14 @@ def rtc_shapes(case_names, tier):
                 for how, fn in sq:
                     stats["required_raises"] += 1
                     lab = f"{label}|{how}"
+                    # operations the design lists as square-only vs. further operations that only make sense for a square matrix
+                    grp = "square_only_extra" if ("zero_mean_mvn_samples" in how or "sqrt_inv_matmul" in how or "eig" in how) else "square_only"
                     try:
                         r = fn()
                     except Exception:  # noqa
-                        rec.check(f"square_only/{c.name}", lab, True)
+                        rec.check(f"{grp}/{c.name}", lab, True)
                         continue
-                    rec.check(f"square_only/{c.name}", lab, False, f"returned {describe(r)} for a {m}x{n} operator")
+                    rec.check(f"{grp}/{c.name}", lab, False, f"returned {describe(r)} for a {m}x{n} operator")
                 # diagonal(): torch defines it for rectangular matrices; raising is fine, a wrong answer is not
                 try:
                     r = op.diagonal()
@@ -354,9 +356,9 @@ def rtc_shapes(case_names, tier):
                         try:
                             r = op[ix]
                         except Exception:  # noqa
-                            rec.check(f"index_{kind}/{c.name}", lab, True)
+                            rec.check(f"index_{kind}:debug_{'on' if dbg else 'off'}/{c.name}", lab, True)
                             continue
-                    rec.check(f"index_{kind}/{c.name}", lab, False, f"returned {describe(r)} where torch raises {terr}")
+                    rec.check(f"index_{kind}:debug_{'on' if dbg else 'off'}/{c.name}", lab, False, f"returned {describe(r)} where torch raises {terr}")
     return {"obligations": rec.obligations(), "stats": stats}
 
 
